@@ -56,7 +56,7 @@ class Check(PropCheck):
         for n in (2, 3, 4):
             names = gen.default_names(n)
             prs = [frozenset(p) for p in itertools.combinations(names, 2)]
-            vals = (1, 2, 3, 4)
+            vals = (0, 1, 2, 3) if n == 4 else (1, 2, 3, 4)
             combos = list(itertools.product(vals, repeat=len(prs)))
             if self.tier == 'quick' and len(combos) > 1500:
                 combos = rng.sample(combos, 1500)
@@ -67,7 +67,7 @@ class Check(PropCheck):
         names = gen.default_names(5)
         prs = [frozenset(p) for p in itertools.combinations(names, 2)]
         for _ in range(500 if self.tier == 'quick' else 20000):
-            D = {p: Fraction(rng.randint(1, 4)) for p in prs}
+            D = {p: Fraction(rng.randint(0, 4)) for p in prs}
             nm = list(names); rng.shuffle(nm)
             cases.append(self.mat_case('e%d' % k, nm, D)); k += 1
         self.stats['small_integer_matrices'] = k
@@ -84,6 +84,17 @@ class Check(PropCheck):
             for p in itertools.combinations(names, 2):
                 D[frozenset(p)] = Fraction(rng.uniform(0.1, 10.0))
             cases.append(self.mat_case('r%d' % j, names, D))
+        # more than 64 taxa (bit-set sized bookkeeping), and exact zero distances between distinct taxa
+        for j in range(2 if self.tier == 'quick' else 12):
+            n = rng.randint(65, 72)
+            names = ['w%d' % i for i in range(n)]; rng.shuffle(names)
+            D = {frozenset(p): Fraction(rng.randint(1, 400), 8) for p in itertools.combinations(names, 2)}
+            cases.append(self.mat_case('big%d' % j, names, D))
+        for j in range(60 if self.tier == 'quick' else 1000):
+            n = rng.randint(3, 9)
+            names = ['z%d' % i for i in range(n)]; rng.shuffle(names)
+            D = {frozenset(p): (Fraction(0) if rng.random() < 0.25 else Fraction(rng.randint(1, 40), 4)) for p in itertools.combinations(names, 2)}
+            cases.append(self.mat_case('z%d' % j, names, D))
         # ultrametric from clock-like trees: heights increasing towards the root
         for j in range(100 if self.tier == 'quick' else 2000):
             n = rng.randint(3, 20 if self.tier == 'quick' else 60)
